@@ -89,6 +89,11 @@ def global_formula(p, b, G, cli):
     env["modules"] = [x["name"] for x in b["modules"] if not x["name"].startswith("context::")]
     env["contexts"] = chain
     env = merge(env, list(cli.items()))
+    for k in ("project-root", "LAZE_BIN"):
+        # their built-in values are absolute paths of this run, taken from the observed env above: when -D assigns them too, the
+        # observed value is no longer the built-in one and the formula has no base to start from — not compared
+        if k in cli:
+            env[k] = G.get(k)
     return env
 
 
